@@ -42,7 +42,7 @@ type Case struct {
 	Ops  []Op `json:"ops"`
 }
 
-var vias = []string{"id", "op", "lit", "dot", "call", "add", "index", "qual", "qualconf", "tag", "tag", "caseblock", "defaultblock", "casehead", "defaulthead", "blockafter", "blockafter"}
+var vias = []string{"id", "op", "lit", "litfunc", "idexpr", "dot", "call", "add", "index", "qual", "qualconf", "tag", "tag", "caseblock", "defaultblock", "casehead", "defaulthead", "blockafter", "blockafter"}
 
 func genCase(maxOps int) func(t *rapid.T) Case {
 	return func(t *rapid.T) Case {
@@ -297,6 +297,18 @@ func check(c Case) error {
 			counter++
 			s.Lit(1000000 + counter)
 			return []string{fmt.Sprint(1000000 + counter)}
+		case "litfunc":
+			// the value comes from a callback that hands out numbers: asked once, when the token is appended
+			counter++
+			base := 2000000 + counter*10
+			calls := 0
+			s.LitFunc(func() interface{} { calls++; return base + calls - 1 })
+			return []string{fmt.Sprint(base)}
+		case "idexpr":
+			// an identifier token whose text is an expression (a caller's shortcut)
+			a, b := next(), next()
+			s.Id(a + "+" + b + "*2")
+			return []string{a, "+", b, "*", "2"}
 		case "dot":
 			a := next()
 			s.Dot(a)
@@ -524,6 +536,17 @@ func check(c Case) error {
 			list = append(list, &st{s: cl, parent: i, snap: snapU(i), snapCase: endsCase(list[i])})
 			pf.Add(jen.Id("ZZSEP"))
 			pf.Add(cl)
+			// (also as fragments: Statement.Render of the original and of its fresh clone succeed or fail together and
+			// give the same bytes)
+			{
+				b1, b2 := &bytes.Buffer{}, &bytes.Buffer{}
+				var e1, e2 error
+				if perr := hx.Safe(func() error { e1 = list[i].s.Render(b1); e2 = cl.Render(b2); return nil }); perr == nil {
+					if (e1 == nil) != (e2 == nil) || e1 == nil && !bytes.Equal(b1.Bytes(), b2.Bytes()) {
+						return fmt.Errorf("step %d: Statement.Render of statement %d gives %q (error: %v), of its fresh clone %q (error: %v)", step, i, b1.Bytes(), e1 != nil, b2.Bytes(), e2 != nil)
+					}
+				}
+			}
 			got, err := render(cl)
 			if err != nil {
 				return err
